@@ -8,6 +8,7 @@
 //   kinds   one letter per port in the same (pre)order:
 //             R rRecur(sub)  P rRecurp(subp)  A rRecurs(arr,12)  M sub-tree "sub" with a multi-component
 //             name (harness callback that strips as many components as the name has)
+//             X rRecur(sub)'s callback paired with a multi-component name (observation: SNIP strips one component)
 //             T toggle en0  U toggle en1  V rParamI(val)  S rSelf  L plain leaf
 //   case    walk <tree> <kinds> <hexbuf> <rt 0|1> <nulls> <dis> <selfoff> <off>
 //             hexbuf  initial content of the name buffer (a string)
@@ -142,6 +143,7 @@ struct Built {
                 subt = levels[lv + 1].tab;
                 switch(kind) {
                     case 'R': cb = T.ports[0].cb; break;
+                    case 'X': cb = T.ports[0].cb; break;   // rRecurCb(sub) under a multi-component name
                     case 'P': cb = T.ports[2].cb; break;
                     case 'A': cb = T.ports[3].cb; break;
                     case 'M': cb = lv == 0 ? (cb_t)multi_cb<N0, N1>
